@@ -155,6 +155,32 @@ pub fn run(tier: &str, seed: u64, replay: Option<u64>) -> Report {
     if d != (a == b) || p != (a == b) { alarm(&mut rep, "Equals:plain".into(), format!("EqualsChecker on {} vs {}: consistent={}/{}", a, b, d, p), 0); }
     if !d2 || !p2 { alarm(&mut rep, "Always:plain".into(), format!("AlwaysConsistent on {} vs {} reported inconsistent", a, b), 0); }
   } }
+  // ---- other payload types (direct and through the proxy): zero-sized, unit structs, heap-allocated, nested
+  if replay.is_none() {
+    #[derive(Clone, Debug, PartialEq, Eq)] struct Done;
+    #[derive(Clone, Debug, PartialEq, Eq)] struct Failed;
+    fn over<T: Clone + Eq + Debug + 'static, E: Clone + Eq + Debug + 'static>(rep: &mut Report, name: &str, dom: Vec<Result<T, E>>, alarm: &dyn Fn(&mut Report, String, String, u64)) {
+      for ck in ALL { for a in &dom { for b in &dom {
+        let want = relation(ck, a, b);
+        let (d, p) = verdicts(ck, a, b);
+        rep.evaluations += 1;
+        rep.count("pairs_direct_other_payload_types");
+        if d != want || p != want { alarm(rep, format!("{:?}:payload-types", ck), format!("{:?} on {}: checking {:?} against the stamp of {:?}: direct={} proxy={} but the documented relation says {}", ck, name, b, a, d, p, want), 0); }
+      } } }
+      rep.seen("payload_type_families", name);
+    }
+    over::<(), ()>(&mut rep, "Result<(), ()>", vec![Ok(()), Err(())], &alarm);
+    over::<(), i8>(&mut rep, "Result<(), i8>", vec![Ok(()), Err(0), Err(1)], &alarm);
+    over::<i8, ()>(&mut rep, "Result<i8, ()>", vec![Ok(0), Ok(1), Err(())], &alarm);
+    over::<Done, Failed>(&mut rep, "Result<Done, Failed> (unit structs)", vec![Ok(Done), Err(Failed)], &alarm);
+    over::<Done, String>(&mut rep, "Result<Done, String>", vec![Ok(Done), Err("".into()), Err("x".into())], &alarm);
+    over::<String, Failed>(&mut rep, "Result<String, Failed>", vec![Ok("".into()), Ok("x".into()), Err(Failed)], &alarm);
+    over::<String, String>(&mut rep, "Result<String, String>", vec![Ok("".into()), Ok("a".into()), Err("".into()), Err("a".into())], &alarm);
+    over::<Box<i8>, Rc<i8>>(&mut rep, "Result<Box<i8>, Rc<i8>>", vec![Ok(Box::new(0)), Ok(Box::new(1)), Err(Rc::new(0)), Err(Rc::new(1))], &alarm);
+    over::<Option<i8>, Vec<i8>>(&mut rep, "Result<Option<i8>, Vec<i8>>", vec![Ok(None), Ok(Some(0)), Err(vec![]), Err(vec![0]), Err(vec![0, 0])], &alarm);
+    over::<Result<i8, ()>, Option<()>>(&mut rep, "Result<Result<i8, ()>, Option<()>>", vec![Ok(Ok(0)), Ok(Err(())), Err(None), Err(Some(()))], &alarm);
+    over::<std::marker::PhantomData<u8>, [u8; 0]>(&mut rep, "Result<PhantomData<u8>, [u8; 0]>", vec![Ok(std::marker::PhantomData), Err([])], &alarm);
+  }
   rep.exhaustive = replay.is_none();
   // ---- random pairs of richer types
   if tier == "thorough" && replay.is_none() {
@@ -180,7 +206,7 @@ pub fn run(tier: &str, seed: u64, replay: Option<u64>) -> Report {
     for p in parts { rep.merge(p); }
   }
   rep.sample(|| J::s(format!("domain = {:?}; every ordered pair (o1, o2): check(o2, stamp(o1)) for Equals/OkEquals/ErrEquals/Result/Always", dom)));
-  rep.rule = "closed domain Result<i8,i8> with 4 Ok and 4 Err payloads: ALL 64 ordered pairs x 5 checkers are enumerated (exhaustive), each (a) directly through OutputChecker::stamp/check, (b) through the object-safe proxy OutputCheckerObj, (c) inside a real top-down build and (d) a real bottom-up build where the required task's output changes from o1 to o2 (requirer must be re-executed iff the documented relation says inconsistent); plain integers for EqualsChecker/AlwaysConsistent; thorough adds 10^6 random pairs of Result<(String, Option<u8>), (u64, Rc<str>)>. distinct non-trivial = pairs the documented relation calls inconsistent.".into();
+  rep.rule = "closed domain Result<i8,i8> with 4 Ok and 4 Err payloads: ALL 64 ordered pairs x 5 checkers are enumerated (exhaustive), each (a) directly through OutputChecker::stamp/check, (b) through the object-safe proxy OutputCheckerObj, (c) inside a real top-down build and (d) a real bottom-up build where the required task's output changes from o1 to o2 (requirer must be re-executed iff the documented relation says inconsistent); plain integers for EqualsChecker/AlwaysConsistent; all ordered pairs of small domains of eleven other payload-type families (zero-sized (), unit structs, PhantomData, [u8; 0]; String; Box / Rc; Option / Vec; nested Result), directly and through the proxy; thorough adds 10^6 random pairs of Result<(String, Option<u8>), (u64, Rc<str>)>. distinct non-trivial = pairs the documented relation calls inconsistent.".into();
   rep.floor("in-build pairs ran", rep.get("pairs_in_builds") > 100 || replay.is_some());
   rep
 }
